@@ -30,7 +30,10 @@ def operands(tier):
            ("concat", [("opt", ("capture", L("a"), "x"), True), ("cond", "x", b, None)]),
            ("concat", [("capture", a, "x"), ("cond", "x", ("either", [b, L("cd")]), L("e"))]),
            ("concat", [("capture", a, "x"), ("cond", "x", L("b."), L("c|d"))]),
-           ("concat", [("capture", a, "x"), ("bref", "x")])]
+           ("concat", [("capture", a, "x"), ("bref", "x")]),
+           # runs of escaped backslashes directly before / after a nested group's parenthesis (group detection masks "\\\\" pairs)
+           ("concat", [L("C:\\\\"), ("capture", L("dir"), "d"), L("!")]), ("concat", [L("\\\\"), ("capture", a, None)]),
+           ("concat", [("capture", a, None), L("\\\\")]), ("concat", [L("\\"), ("group", L("ab"), False), L("\\\\\\")])]
     return ops
 
 
